@@ -276,7 +276,8 @@ func UniqueCuts(p *core.Prog, r *core.Report) {
 		return be.Op, c, true
 	}
 	reachedUnguarded := false
-	// state 1: at least two cuts established on this path
+	pendingCond := ""
+	// state bit 0: at least two cuts established on this path; bit 1: "pendingCond implies two cuts"
 	core.Scan(fl, fl.Entry(), 0, core.Stepper[int]{
 		Node: func(st int, n ast.Node) (int, bool) {
 			hit := false
@@ -287,7 +288,7 @@ func UniqueCuts(p *core.Prog, r *core.Report) {
 				return !hit
 			})
 			if hit {
-				if st == 0 {
+				if st&1 == 0 {
 					reachedUnguarded = true
 				}
 				return st, true
@@ -302,7 +303,23 @@ func UniqueCuts(p *core.Prog, r *core.Report) {
 			return st, false
 		},
 		Edge: func(st int, cond ast.Expr, taken bool) int {
+			// `if C && len(cuts) < 2 { ...leave... }`: on the false edge either C is false or there are two cuts;
+			// remembered as "C implies two cuts" (bit 1, with C's text) and resolved when C is later found true
+			if be, ok := ast.Unparen(cond).(*ast.BinaryExpr); ok && be.Op == token.LAND && !taken {
+				for _, pr := range [][2]ast.Expr{{be.X, be.Y}, {be.Y, be.X}} {
+					if op, k, ok := lenAtom(pr[1]); ok && ((op == token.LSS && k == 2) || (op == token.LEQ && k == 1) || (op == token.EQL && k == 1 && false)) {
+						pendingCond = types.ExprString(ast.Unparen(pr[0]))
+						st |= 2
+					}
+				}
+			}
+			if st&2 != 0 && taken && types.ExprString(ast.Unparen(cond)) == pendingCond {
+				st |= 1
+			}
 			core.Facts(cond, taken, func(atom ast.Expr, val bool) {
+				if st&2 != 0 && val && types.ExprString(ast.Unparen(atom)) == pendingCond {
+					st |= 1
+				}
 				op, k, ok := lenAtom(atom)
 				if !ok {
 					return
@@ -321,7 +338,7 @@ func UniqueCuts(p *core.Prog, r *core.Report) {
 					two = !val && k >= 1
 				}
 				if two {
-					st = 1
+					st |= 1
 				}
 			})
 			return st
